@@ -312,6 +312,30 @@ def replay(path):
     return EXIT_HARNESS
 
 
+def hunt(focus, seed, substr=""):
+    """Developer tool: generate the scenario of (focus, seed), take its first violation whose signature or detail
+    contains `substr`, minimise it and write the replay file."""
+    from dtsim import engine_project, gen_project, shrink
+
+    engine_project.setup()
+    sc = gen_project.gen_scenario(int(seed), focus)
+    r = engine_project.execute(sc, want_trace=True)
+    for rec in r["trace"]:
+        if rec.get("fault") and rec["fault"].get("plan"):
+            sc["ops"][rec["i"]]["fault"] = rec["fault"]["plan"]
+    for v in r["violations"]:
+        if substr in v["detail"] or substr in json.dumps(v["sig"], sort_keys=True):
+            small, attempts = shrink.shrink_project(engine_project.execute, sc, v["sig"], max_attempts=400, max_seconds=90)
+            vv = shrink.has_sig(engine_project.execute(small), v["sig"])
+            path = write_replay(v["property"], v["sig"], small, vv["detail"], "project", {"shrink_attempts": attempts})
+            print(path)
+            print(json.dumps(v["sig"], sort_keys=True))
+            print(vv["detail"])
+            return 0
+    print("no matching violation; have: %s" % [(v["property"], v["oracle"]) for v in r["violations"]])
+    return 1
+
+
 # -------------------------------------------------------------------------- worker
 def project_worker(task):
     from dtsim import engine_project, gen_project, shrink
